@@ -262,3 +262,42 @@ func (ex *Exec) evObl(c *Term, id string, label string) {
 	}
 	ex.assertObl(c, id, "", nil)
 }
+
+// objIdentity returns the identity of the object a pooled value refers to (nil when it has none).
+func objIdentity(v V) interface{} {
+	switch x := v.(type) {
+	case Iface:
+		return objIdentity(x.V)
+	case Ptr:
+		if x.S != nil {
+			return x.S
+		}
+		if x.B != nil {
+			return x.B
+		}
+	case Slice:
+		if x.B != nil {
+			return x.B
+		}
+	}
+	return nil
+}
+
+// evPoolPut: an object that is put into a pool while it is already parked there will be handed to two takers - the pool's
+// hand-over is then no longer an ownership transfer and two goroutines end up sharing a mutable object.
+func (ex *Exec) evPoolPut(items []V, v V, kind string) {
+	if ex.evlog == nil || !ex.evlog.on {
+		return
+	}
+	id := objIdentity(v)
+	if id == nil {
+		return
+	}
+	for _, it := range items {
+		if objIdentity(it) == id {
+			ex.evObl(ex.ts.fls, "pool-object-not-put-twice", "pool:"+kind)
+			ex.hooks.noteC18("double put into a " + kind)
+			return
+		}
+	}
+}
